@@ -1,7 +1,595 @@
-//! C17 — not built yet (stub keeps the registry stable while modules are written in parallel).
+//! C17 — module privacy and name resolution.
+//!
+//! Inline module trees whose members are functions returning distinct constants, so the value of
+//! a reference identifies the definition it was resolved to.  The expectation of every reference
+//! comes from an independent resolution model (`c17_model.rs`).
 
-use crate::engine::case::Prop;
+#[path = "c17_model.rs"]
+mod model;
+#[path = "c17_gen.rs"]
+mod rgen;
+
+use crate::engine::case::*;
+use crate::engine::rng::hash64;
+use crate::engine::tape::Gen;
+use crate::runners::exec::{self, Exec, Inputs, RunOpts};
+use model::*;
+use serde_json::{json, Value};
+use std::sync::OnceLock;
+
+pub struct C17;
 
 pub fn prop() -> Option<&'static dyn Prop> {
+    Some(&C17)
+}
+
+/// `pub` on `mod` is parsed but never consulted: members of a non-pub nested module are reachable
+/// from outside its parent
+pub const KF_MODULE_VIS: &str = "C17-module-visibility-ignored";
+/// `E::f` where E holds `pub use m::f` is accepted although `m::f` is private and out of reach
+pub const KF_REEXPORT_PRIVATE: &str = "C17-reexport-leaks-private";
+/// `use` aliases are registered file-globally: the last `use ..::f` anywhere decides what every
+/// unqualified imported `f` in the file means
+pub const KF_ALIAS_GLOBAL: &str = "C17-use-alias-global";
+/// wildcard imports are registered file-globally and searched in textual order
+pub const KF_WILDCARD_GLOBAL: &str = "C17-wildcard-global";
+
+fn run_src(src: &str) -> Exec {
+    exec::run_vm(src, &Inputs { kind: 0, scale: 1.0 }, &RunOpts { n: 2, sched: false, want_state: false, want_counts: false, want_trace: false })
+}
+
+struct Verdict {
+    fail: Option<(String, String)>,
+    classes: Vec<String>,
+    counters: Vec<(String, u64)>,
+    nontrivial: bool,
+}
+
+fn fn_val(p: &Prog, id: &(Path, String)) -> f64 {
+    p.module(&id.0).and_then(|m| m.fns.iter().find(|f| f.name == id.1)).map(|f| f.val).unwrap_or(f64::NAN)
+}
+
+fn who_has(p: &Prog, v: f64) -> String {
+    for id in p.all_fns() {
+        if fn_val(p, &id) == v {
+            return format!("{}::{}", id.0.join("::"), id.1);
+        }
+    }
+    if v >= 9000.0 && v < 9100.0 { format!("the local binding of probe p{}", v - 9000.0) } else { "no definition".into() }
+}
+
+fn only_probe(p: &Prog, id: u32) -> Prog {
+    fn rec(m: &mut Module, id: u32) {
+        m.probes.retain(|x| x.id == id);
+        for c in &mut m.mods {
+            rec(c, id);
+        }
+    }
+    let mut q = p.clone();
+    rec(&mut q.root, id);
+    q
+}
+
+fn route_sig(e: &ProbeEval) -> String {
+    if e.wrap.shadows() {
+        format!("shadow-{}", e.route)
+    } else if e.wrap == Wrap::ScopeEnd {
+        format!("scope-end-{}", e.route)
+    } else {
+        e.route.clone()
+    }
+}
+
+fn judge(p: &Prog, evals: &[ProbeEval], src: &str, cx: &Cx, attribute: bool) -> Verdict {
+    let mut v = Verdict { fail: None, classes: vec![], counters: vec![], nontrivial: false };
+    for e in evals {
+        match &e.res {
+            Ok(_) => v.classes.push(format!("route:{}", e.route)),
+            Err(r) => v.classes.push(format!("neg:{}{}", e.route, if matches!(r.culprit, Ent::Mod(_)) { ":module" } else { "" })),
+        }
+        if e.wrap.shadows() {
+            v.classes.push("shadow:local".into());
+            v.classes.push(format!("shadow:{}-over-{}", e.wrap.name().trim_start_matches("shadow-"), e.route));
+        }
+        if e.wrap == Wrap::ScopeEnd {
+            v.classes.push("shadow:scope-end".into());
+        }
+        if e.trace.own && e.trace.via_wild {
+            v.classes.push("shadow:member-over-wildcard".into());
+        }
+        v.classes.push(if e.pos.is_empty() { "site:top".to_string() } else { format!("site:module-depth{}", e.pos.len()) });
+        if matches!(e.wrap, Wrap::Lambda | Wrap::ShadowInLambda) {
+            v.classes.push("site:lambda".into());
+        }
+        if e.links > 0 {
+            v.classes.push(format!("reexport:len{}", e.links));
+        }
+        if e.relative_use {
+            v.classes.push("use:relative-path".into());
+        }
+        if e.trace.imports.iter().any(|(m, _, _)| !m.is_empty()) || e.trace.wilds.iter().any(|(m, _)| !m.is_empty()) {
+            v.classes.push("use:inside-module".into());
+        }
+        if matches!(e.route.as_str(), "use" | "multi" | "wildcard" | "reexport") {
+            v.nontrivial = true;
+        }
+    }
+    v.classes.sort();
+    v.classes.dedup();
+    let rejects: Vec<&ProbeEval> = evals.iter().filter(|e| e.res.is_err()).collect();
+    v.classes.push(if rejects.is_empty() { "expect:accept".into() } else { "expect:reject".into() });
+    macro_rules! fail {
+        ($sig:expr, $($arg:tt)*) => {{ v.fail = Some((format!("c17:{}", $sig), format!($($arg)*))); v.nontrivial = true; return v; }};
+    }
+    let ex = run_src(src);
+    match ex {
+        Exec::Panic(stage, pi) => fail!(format!("panic:{}:{}", if stage.starts_with("dsp@") { "dsp" } else { stage.as_str() }, pi.signature()), "{stage}: {}", pi.describe()),
+        Exec::Error(stage, e) => fail!(format!("vm-error:{stage}"), "{stage}: {e}"),
+        Exec::NoIo => fail!("no-io", "compiled, but dsp has no I/O information"),
+        Exec::Rejected(d) => {
+            let msg = d.first().map(|x| x.message.clone()).unwrap_or_default();
+            if !rejects.is_empty() {
+                v.classes.push(if d.iter().any(|x| x.message.contains("is private")) { "neg-diag:is-private".into() } else { "neg-diag:other".into() });
+                return v;
+            }
+            // which reference is it?
+            let mut route = if evals.len() == 1 { route_sig(&evals[0]) } else { "combination".to_string() };
+            if attribute && evals.len() > 1 {
+                for e in evals {
+                    let q = only_probe(p, e.id);
+                    if let Outcome::Expect(ev) = evaluate(&q) {
+                        if ev.iter().all(|x| x.res.is_ok()) && matches!(run_src(&render(&q)), Exec::Rejected(_)) {
+                            route = route_sig(e);
+                            break;
+                        }
+                    }
+                }
+            }
+            fail!(format!("legal-reference-rejected:{route}"), "every reference is legal by the model, but compilation fails: {msg}");
+        }
+        Exec::Ran(out) => {
+            let mut tolerated: Vec<&'static str> = vec![];
+            for r in &rejects {
+                let rj = r.res.as_ref().err().unwrap();
+                let id = match &rj.culprit {
+                    Ent::Mod(_) => Some(KF_MODULE_VIS),
+                    Ent::Fn(..) if rj.via_reexport_path => Some(KF_REEXPORT_PRIVATE),
+                    _ => None,
+                };
+                match id {
+                    Some(id) if !cx.strict && cx.excluded(id) => tolerated.push(id),
+                    _ => {
+                        let got = out.samples.first().and_then(|s| s.get(evals.iter().position(|e| e.id == r.id).unwrap())).map(|b| f64::from_bits(*b)).unwrap_or(f64::NAN);
+                        fail!(
+                            format!("private-accessible:{}{}", r.route, if matches!(rj.culprit, Ent::Mod(_)) { ":module" } else { "" }),
+                            "probe p{} at {} refers to {} which crosses the non-pub {} from outside its module, yet the program compiles (the reference yields {got})",
+                            r.id,
+                            if r.pos.is_empty() { "top level".to_string() } else { r.pos.join("::") },
+                            r.target.as_ref().map(|t| format!("{}::{}", t.0.join("::"), t.1)).unwrap_or_default(),
+                            rj.culprit.describe()
+                        );
+                    }
+                }
+            }
+            if out.n_out as usize != evals.len() {
+                fail!("output-width", "dsp has {} outputs for {} probes", out.n_out, evals.len());
+            }
+            for (t, smp) in out.samples.iter().enumerate() {
+                for (i, e) in evals.iter().enumerate() {
+                    let want = match &e.res {
+                        Ok(x) => *x,
+                        Err(_) => e.target.as_ref().map(|t| fn_val(p, t)).unwrap_or(f64::NAN),
+                    };
+                    let got = smp.get(i).map(|b| f64::from_bits(*b)).unwrap_or(f64::NAN);
+                    if got.to_bits() != want.to_bits() {
+                        fail!(
+                            format!("wrong-target:{}", route_sig(e)),
+                            "sample {t}: probe p{} at {} ({} route, {}) yields {got} = {} but its path denotes {} = {want}",
+                            e.id,
+                            if e.pos.is_empty() { "top level".to_string() } else { e.pos.join("::") },
+                            e.route,
+                            e.wrap.name(),
+                            who_has(p, got),
+                            if e.wrap.shadows() { "the local binding".to_string() } else { e.target.as_ref().map(|t| format!("{}::{}", t.0.join("::"), t.1)).unwrap_or_default() }
+                        );
+                    }
+                }
+            }
+            tolerated.sort();
+            tolerated.dedup();
+            for id in tolerated {
+                v.counters.push((format!("excluded_by_known_finding:{id}"), 1));
+                v.classes.push(format!("known:{id}"));
+            }
+        }
+    }
+    v
+}
+
+fn direct_of(p: &Prog) -> Value {
+    json!({"spec": module_to_json(&p.root)})
+}
+
+fn active_hazards(p: &Prog, evals: &[ProbeEval], cx: &Cx) -> Vec<&'static str> {
+    hazards(p, evals)
+        .into_iter()
+        .filter_map(|h| {
+            let id = if h == "alias" { KF_ALIAS_GLOBAL } else { KF_WILDCARD_GLOBAL };
+            cx.excluded(id).then_some(id)
+        })
+        .collect()
+}
+
+fn finish(p: &Prog, cx: &Cx, mode: &str) -> CaseResult {
+    let src = render(p);
+    let hash = hash64(src.as_bytes());
+    let direct = direct_of(p);
+    let evals = match evaluate(p) {
+        Outcome::Invalid(w) => return CaseResult::discard(format!("invalid:{w}")),
+        Outcome::Expect(e) => e,
+    };
+    let describe = |evals: &[ProbeEval]| -> Value {
+        json!({
+            "text": src,
+            "expect": evals.iter().map(|e| match &e.res { Ok(v) => json!(v), Err(r) => json!(format!("reject ({} is not pub)", r.culprit.describe())) }).collect::<Vec<_>>(),
+            "routes": evals.iter().map(|e| format!("p{}:{}:{}", e.id, e.route, e.wrap.name())).collect::<Vec<_>>(),
+        })
+    };
+    if cx.dry {
+        let mut r = CaseResult::discard("dry");
+        r.render = Some(describe(&evals));
+        r.direct = Some(direct);
+        return r;
+    }
+    if !cx.strict {
+        if let Some(h) = active_hazards(p, &evals, cx).first() {
+            let mut r = CaseResult::discard(format!("known-hazard:{h}"));
+            r.count(&format!("excluded_by_known_finding:{h}"), 1);
+            return r;
+        }
+    }
+    let v = judge(p, &evals, &src, cx, true);
+    let mut r = match &v.fail {
+        Some((s, m)) => CaseResult::fail(hash, s.clone(), m.clone()),
+        None => CaseResult::held(hash),
+    };
+    r.classes = v.classes;
+    r.classes.push(format!("mode:{mode}"));
+    r.classes.push(format!("probes:{}", evals.len().min(4)));
+    r.nontrivial = v.nontrivial;
+    for (k, n) in &v.counters {
+        r.count(k, *n);
+    }
+    if cx.render || r.is_fail() {
+        r.render = Some(describe(&evals));
+    }
+    r.direct = Some(direct);
+    r
+}
+
+// ------------------------------------------------------------------------------------------
+// generation
+// ------------------------------------------------------------------------------------------
+
+fn all_legal(p: &Prog) -> Option<Vec<ProbeEval>> {
+    match evaluate(p) {
+        Outcome::Expect(ev) if ev.iter().all(|e| e.res.is_ok()) => Some(ev),
+        _ => None,
+    }
+}
+
+fn try_add_route(g: &mut Gen, p: &mut Prog, id: u32, cx: &Cx, switched_off: &mut Vec<&'static str>, breakable: bool) -> bool {
+    let spec = g.span(|g| rgen::gen_route(g, p));
+    let mut q = p.clone();
+    if rgen::apply_route(&mut q, &spec, id).is_none() {
+        return false;
+    }
+    let Some(ev) = all_legal(&q) else { return false };
+    if breakable {
+        // the new reference must depend on a pub flag that may be switched off
+        let e = ev.iter().find(|e| e.id == id).unwrap();
+        let ok = !e.wrap.shadows() && e.needs.iter().any(|n| !matches!(n, Ent::Mod(_)) || !cx.excluded(KF_MODULE_VIS));
+        if !ok {
+            return false;
+        }
+    }
+    let hz = active_hazards(&q, &ev, cx);
+    if !hz.is_empty() {
+        switched_off.extend(hz);
+        return false;
+    }
+    *p = q;
+    true
+}
+
+fn build_positive(g: &mut Gen, cx: &Cx, switched_off: &mut Vec<&'static str>, breakable: bool) -> Option<Prog> {
+    let mut p = rgen::gen_tree(g);
+    let k = (if breakable { 0 } else { 1 }) + g.weighted(&[2, 3, 3, 2]);
+    let mut id = 0u32;
+    for _ in 0..k {
+        for _attempt in 0..8 {
+            if try_add_route(g, &mut p, id, cx, switched_off, false) {
+                id += 1;
+                break;
+            }
+        }
+    }
+    if breakable {
+        return Some(p);
+    } else if id == 0 {
+        for _attempt in 0..16 {
+            if try_add_route(g, &mut p, id, cx, switched_off, false) {
+                id += 1;
+                break;
+            }
+        }
+    }
+    (id > 0).then_some(p)
+}
+
+fn build_negative(g: &mut Gen, cx: &Cx, switched_off: &mut Vec<&'static str>) -> Option<(Prog, Prog)> {
+    let base = build_positive(g, cx, switched_off, true)?;
+    let id = base.all_probes().len() as u32;
+    for _attempt in 0..40 {
+        let mut p = base.clone();
+        if !try_add_route(g, &mut p, id, cx, switched_off, true) {
+            continue;
+        }
+        if let Some(q) = break_one(g, &p, id, cx, switched_off) {
+            return Some((p, q));
+        }
+    }
     None
+}
+
+/// turn exactly one `pub` flag off so that exactly one reference becomes illegal
+fn break_one(g: &mut Gen, p: &Prog, id: u32, cx: &Cx, switched_off: &mut Vec<&'static str>) -> Option<Prog> {
+    let evals = all_legal(p)?;
+    for e in evals.iter().filter(|e| e.id == id) {
+        if e.wrap.shadows() {
+            continue;
+        }
+        let mut cands = e.needs.clone();
+        cands.sort();
+        cands.dedup();
+        let perm = g.perm(cands.len());
+        for ci in perm {
+            let c = &cands[ci];
+            if matches!(c, Ent::Mod(_)) && cx.excluded(KF_MODULE_VIS) {
+                switched_off.push(KF_MODULE_VIS);
+                continue;
+            }
+            let mut q = p.clone();
+            q.set_public(c, false);
+            let Outcome::Expect(ev) = evaluate(&q) else { continue };
+            let bad: Vec<&ProbeEval> = ev.iter().filter(|x| x.res.is_err()).collect();
+            if bad.len() != 1 || bad[0].id != e.id {
+                continue;
+            }
+            let rj = bad[0].res.as_ref().err().unwrap();
+            if rj.via_reexport_path && matches!(rj.culprit, Ent::Fn(..)) && cx.excluded(KF_REEXPORT_PRIVATE) {
+                switched_off.push(KF_REEXPORT_PRIVATE);
+                continue;
+            }
+            let hz = active_hazards(&q, &ev, cx);
+            if !hz.is_empty() {
+                switched_off.extend(hz);
+                continue;
+            }
+            return Some(q);
+        }
+    }
+    None
+}
+
+fn exhaustive_cases() -> &'static Vec<Prog> {
+    static CASES: OnceLock<Vec<Prog>> = OnceLock::new();
+    CASES.get_or_init(|| {
+        let mut out = vec![];
+        for (flags, spec) in rgen::exhaustive_specs() {
+            let mut p = rgen::base_tree(flags);
+            if rgen::apply_route(&mut p, &spec, 0).is_none() {
+                continue;
+            }
+            if let Outcome::Expect(_) = evaluate(&p) {
+                if !out.contains(&p) {
+                    out.push(p);
+                }
+            }
+        }
+        out
+    })
+}
+
+fn with_switches(mut r: CaseResult, off: &[&'static str]) -> CaseResult {
+    let mut o = off.to_vec();
+    o.sort();
+    o.dedup();
+    for id in o {
+        r.count(&format!("generator_switch_off:{id}"), 1);
+    }
+    r
+}
+
+// ------------------------------------------------------------------------------------------
+// shrinking of spec inputs
+// ------------------------------------------------------------------------------------------
+
+fn shrink_spec(root: &Module) -> Vec<Module> {
+    let p = Prog { root: root.clone() };
+    let mut paths = vec![vec![]];
+    paths.extend(p.all_module_paths());
+    let mut out: Vec<Module> = vec![];
+    let mut push = |f: &dyn Fn(&mut Prog) -> bool| {
+        let mut q = p.clone();
+        if f(&mut q) && q != p {
+            out.push(q.root);
+        }
+    };
+    let nprobes = p.all_probes().len();
+    // whole modules
+    for mp in paths.iter().skip(1).rev() {
+        push(&|q| {
+            let (par, name) = (mp[..mp.len() - 1].to_vec(), mp.last().unwrap().clone());
+            q.module_mut(&par).map(|m| m.mods.retain(|c| c.name != name)).is_some()
+        });
+    }
+    for mp in &paths {
+        let m = p.module(mp).unwrap();
+        if nprobes > 1 {
+            for i in 0..m.probes.len() {
+                push(&|q| {
+                    q.module_mut(mp).unwrap().probes.remove(i);
+                    true
+                });
+            }
+        }
+        for i in 0..m.uses.len() {
+            push(&|q| {
+                q.module_mut(mp).unwrap().uses.remove(i);
+                true
+            });
+            if m.uses[i].kind == UseKind::Multi {
+                for k in 0..m.uses[i].names.len() {
+                    if m.uses[i].names.len() > 1 {
+                        push(&|q| {
+                            q.module_mut(mp).unwrap().uses[i].names.remove(k);
+                            true
+                        });
+                    }
+                }
+                if m.uses[i].names.len() == 1 {
+                    push(&|q| {
+                        q.module_mut(mp).unwrap().uses[i].kind = UseKind::Single;
+                        true
+                    });
+                }
+            }
+            if m.uses[i].at_start {
+                push(&|q| {
+                    q.module_mut(mp).unwrap().uses[i].at_start = false;
+                    true
+                });
+            }
+        }
+        for i in 0..m.fns.len() {
+            push(&|q| {
+                q.module_mut(mp).unwrap().fns.remove(i);
+                true
+            });
+            if !m.fns[i].public {
+                push(&|q| {
+                    q.module_mut(mp).unwrap().fns[i].public = true;
+                    true
+                });
+            }
+        }
+        for i in 0..m.probes.len() {
+            if m.probes[i].wrap != Wrap::Plain {
+                push(&|q| {
+                    q.module_mut(mp).unwrap().probes[i].wrap = Wrap::Plain;
+                    true
+                });
+            }
+        }
+        if !mp.is_empty() && !m.public {
+            push(&|q| {
+                q.module_mut(mp).unwrap().public = true;
+                true
+            });
+        }
+    }
+    out
+}
+
+impl Prop for C17 {
+    fn id(&self) -> &'static str {
+        "C17"
+    }
+    fn spaces(&self, tier: Tier) -> Vec<Space> {
+        let ex = exhaustive_cases().len() as u64;
+        let (np, nn) = match tier {
+            Tier::Quick => (4000, 3000),
+            Tier::Thorough => (160_000, 140_000),
+        };
+        vec![
+            Space { name: "routes", size: ex, exhaustive: true, chunk: 1500, case_timeout_s: 20.0, what: "every single-reference program over mod ma { fn fa  mod mb { fn fb } } mod mc {}: 2 targets x 4 positions x 52 reference forms x 8 pub/private assignments x wrappers (well-formed ones)" },
+            Space { name: "positive", size: np, exhaustive: false, chunk: 500, case_timeout_s: 20.0, what: "random module trees (depth <= 3) with 1-4 legal references through random routes" },
+            Space { name: "negative", size: nn, exhaustive: false, chunk: 400, case_timeout_s: 20.0, what: "the same with exactly one pub flag switched off so that exactly one reference is illegal (and the all-legal twin)" },
+        ]
+    }
+    fn run(&self, space: &str, index: u64, g: &mut Gen, cx: &Cx) -> CaseResult {
+        match space {
+            "routes" => match exhaustive_cases().get(index as usize) {
+                Some(p) => finish(p, cx, "routes"),
+                None => CaseResult::discard("index out of range"),
+            },
+            "positive" => {
+                let mut off = vec![];
+                let Some(p) = build_positive(g, cx, &mut off, false) else { return CaseResult::discard("no-legal-route") };
+                with_switches(finish(&p, cx, "positive"), &off)
+            }
+            _ => {
+                let mut off = vec![];
+                let Some((p, q)) = build_negative(g, cx, &mut off) else { return with_switches(CaseResult::discard("no-culprit"), &off) };
+                if !cx.dry {
+                    // the all-legal twin must be accepted: the negative is rejected for its one flag only
+                    let t = finish(&p, cx, "negative-twin");
+                    if t.is_fail() {
+                        return with_switches(t, &off);
+                    }
+                }
+                with_switches(finish(&q, cx, "negative"), &off)
+            }
+        }
+    }
+    fn run_direct(&self, input: &Value, cx: &Cx) -> Option<CaseResult> {
+        if let Some(spec) = input.get("spec") {
+            let root = module_from_json(spec)?;
+            return Some(finish(&Prog { root }, cx, "direct"));
+        }
+        // hand-written text: {"text": .., "expect": "reject" | [values], "route": label}
+        let text = input.get("text")?.as_str()?;
+        let route = input.get("route").and_then(|v| v.as_str()).unwrap_or("text");
+        let hash = hash64(text.as_bytes());
+        let want: Option<Vec<f64>> = input.get("expect").and_then(|v| v.as_array()).map(|a| a.iter().filter_map(|x| x.as_f64()).collect());
+        let mut r = match (run_src(text), want) {
+            (Exec::Rejected(_), None) => CaseResult::held(hash),
+            (Exec::Rejected(d), Some(_)) => CaseResult::fail(hash, format!("c17:legal-reference-rejected:{route}"), format!("rejected: {}", d.first().map(|x| x.message.clone()).unwrap_or_default())),
+            (Exec::Ran(o), None) => CaseResult::fail(hash, format!("c17:private-accessible:{route}"), format!("accepted; first sample {:?}", o.samples.first().map(|s| s.iter().map(|b| f64::from_bits(*b)).collect::<Vec<_>>()))),
+            (Exec::Ran(o), Some(w)) => {
+                let got: Vec<f64> = o.samples.first().map(|s| s.iter().map(|b| f64::from_bits(*b)).collect()).unwrap_or_default();
+                if got == w { CaseResult::held(hash) } else { CaseResult::fail(hash, format!("c17:wrong-target:{route}"), format!("got {got:?}, the paths denote {w:?}")) }
+            }
+            (Exec::Panic(stage, pi), _) => CaseResult::fail(hash, format!("c17:panic:{stage}:{}", pi.signature()), pi.describe()),
+            (Exec::Error(stage, e), _) => CaseResult::fail(hash, format!("c17:vm-error:{stage}"), e),
+            (Exec::NoIo, _) => CaseResult::fail(hash, "c17:no-io", "no dsp I/O"),
+        };
+        r.nontrivial = true;
+        r.classes.push("mode:direct-text".into());
+        r.render = Some(input.clone());
+        r.direct = Some(input.clone());
+        Some(r)
+    }
+    fn shrink_direct(&self, input: &Value) -> Vec<Value> {
+        let Some(root) = input.get("spec").and_then(module_from_json) else { return vec![] };
+        shrink_spec(&root).iter().map(|m| json!({"spec": module_to_json(m)})).collect()
+    }
+    fn rule(&self) -> String {
+        "Cases are inline module trees (depth <= 3, <= 3 functions and <= 2 nested modules per module, random `pub` on functions and modules, function/module names drawn from small pools so the same name recurs in different modules) whose functions return distinct constants, plus reference sites (probe functions at top level and inside modules, plain / inside a lambda / under a shadowing let, parameter or lambda parameter / after an inner shadowing scope ended) that reach a function by one of the routes: absolute qualified path, path relative to the current module, the module's own member, `use a::b::f`, `use a::{f, g}`, `use a::*` (at top level or inside a module, absolute or relative path), `pub use` re-export chains of length 1-3 ending in a qualified path, a `use` or a wildcard. dsp returns one channel per reference. Oracle: a resolution model written in the harness (non-pub members are visible inside their parent module and its descendants only; a re-export does not widen the visibility of the function it finally denotes; own members > explicit imports > wildcard imports; locals shadow everything). If every reference is legal the program must compile and every channel must equal the constant of the denoted function (2 samples); if a reference is illegal compilation must fail. `routes` enumerates all well-formed single-reference programs over a fixed two-level tree; `positive`/`negative` are random (negative = one pub flag of a positive program switched off so that exactly one reference becomes illegal; its all-legal twin is checked too). Forms whose meaning no fixture pins are not generated (same name from two sources, wildcard with a relative path, `use` before the module is opened, relative path to a re-export, enclosing-module members seen unqualified). Non-trivial = at least one reference goes through use / multi-use / wildcard / re-export; distinct by source text.".into()
+    }
+    fn assumptions(&self) -> Vec<String> {
+        vec![
+            "VM backend only (name resolution happens before the backends diverge)".into(),
+            "any compile error counts as rejection of an illegal reference (the diagnostic kind is only recorded as a class)".into(),
+            "a nested module is a member of its parent: `mod` without `pub` is private to the parent module (the parser distinguishes `mod` and `pub mod`; no fixture pins the meaning, and examples/scale.mmm uses a non-pub nested module of a library file from outside)".into(),
+            "generator switches that are off because of recorded findings are listed in counters.generator_switch_off".into(),
+        ]
+    }
+    fn required_classes(&self, _tier: Tier) -> Vec<&'static str> {
+        vec![
+            "route:qualified", "route:relative", "route:own", "route:use", "route:multi", "route:wildcard", "route:reexport", "shadow:local", "shadow:scope-end", "neg:qualified", "neg:relative", "neg:use", "neg:multi", "neg:wildcard", "neg:reexport", "site:top", "site:lambda", "site:module-depth1",
+            "site:module-depth2", "reexport:len1", "reexport:len2", "use:relative-path", "use:inside-module", "neg-diag:is-private", "expect:accept", "expect:reject",
+        ]
+    }
 }
